@@ -162,6 +162,294 @@ def pass_packing_automaton(repo, rep, rule):
     return n
 
 
+
+def register_operand_agreement(repo, rep, rule):
+    """A helper call of the register command stream generator that is told which register to write (cmd0.NPU_SET_IFM2_PRECISION,
+    cmd1.NPU_SET_OFM_BASE0 ...) and which feature map to describe (`npu_op.ifm2`, `npu_op.ofm` ...) names the same operand on both
+    sides: IFM2 registers carry the second operand's type and layout while its addresses and strides are emitted from `npu_op.ifm2`."""
+    import ast
+    import re as _re
+
+    from ..exprnorm import norm
+
+    m = repo.mod("register_command_stream_generator")
+    n = 0
+    for q, fn in m.functions.items():
+        for c in ast.walk(fn):
+            if not isinstance(c, ast.Call):
+                continue
+            regs, opers = set(), set()
+            cn_ = str(norm(c.func))
+            mc = _re.fullmatch(r"generate_(ifm2|ifm|ofm)", cn_)
+            if mc:
+                regs.add(mc.group(1))
+            for a in list(c.args) + [k.value for k in c.keywords]:
+                for x in ([a] + (list(a.elts) if isinstance(a, (ast.List, ast.Tuple)) else [])):
+                    t = str(norm(x))
+                    mm = _re.fullmatch(r"cmd[01]\.NPU_SET_(IFM2|IFM|OFM)_\w+", t)
+                    if mm:
+                        regs.add(mm.group(1).lower())
+                    elif not t.startswith("cmd"):
+                        opers |= set(_re.findall(r"(?<![A-Za-z0-9_])(ifm2|ifm|ofm)(?![A-Za-z0-9_])", t))
+            if len(regs) == 1 and len(opers) == 1:
+                n += 1
+                r_, o_ = next(iter(regs)), next(iter(opers))
+                rep.check(r_ == o_, rule, f"ethosu/vela/register_command_stream_generator.py:{q}", f"`{str(norm(c))[:80]}` writes {r_.upper()} registers from the {r_} operand",
+                          f"the {r_.upper()} register is generated from `{o_}`: type / layout bits of one operand with the addresses and strides of the other (an NHWC second operand walked with the NHCWB16 pitch reads past its tensor)")
+    return n
+
+
+
+_CLONE_EXEMPT = {
+    # slot: why Operation.clone does not copy it (confirmed by reading the callers)
+    "type": "constructor argument", "name": "constructor argument (with the suffix)",
+    "activation_lut": "the LUT tensor is an input of the operator; callers that clone LUT operators call set_activation_lut themselves",
+    "_kernel": "derived lazily from attrs by the kernel property", "ifm_shapes": "re-derived by every caller (set_ifm_ofm_shapes) for the clone's own operands",
+    "ofm_shapes": "as ifm_shapes", "rescale": "not a member any code sets (TOSA leftover slot)",
+}
+
+
+def clone_completeness(repo, rep, rule):
+    """Operation.clone builds a fresh Operation and copies the members one by one. Every slot of the class is either copied
+    (`res.<slot> = ..`, through the property where the slot is private) or in the reviewed exemption table: a member that is silently
+    left at its default changes what the clone encodes (rounding mode: the AwayZero +1 of the scale records; explicit scaling; tile
+    offsets). A property setter that validates against another member (rounding_mode reads original_type) must run after that member
+    has been copied."""
+    import ast
+
+    from ..core import AnalysisError
+    from ..exprnorm import norm
+
+    m = repo.mod("operation")
+    cls = [c for c in m.tree.body if isinstance(c, ast.ClassDef) and c.name == "Operation"]
+    if not cls:
+        raise AnalysisError("operation.Operation not found")
+    cls = cls[0]
+    slots = [e.value for n in cls.body if isinstance(n, ast.Assign) and str(norm(n.targets[0])) == "__slots__" for e in getattr(n.value, "elts", []) if isinstance(e, ast.Constant)]
+    cl = [f for f in cls.body if isinstance(f, ast.FunctionDef) and f.name == "clone"]
+    if len(slots) < 20 or len(cl) != 1:
+        raise AnalysisError(f"Operation: {len(slots)} slots, {len(cl)} clone methods")
+    cl = cl[0]
+    order = []
+    for a in ast.walk(cl):
+        if isinstance(a, ast.Assign):
+            for t in a.targets:
+                if isinstance(t, ast.Attribute) and isinstance(t.value, ast.Name) and t.value.id == "res":
+                    order.append((a.lineno, t.attr))
+    order.sort()
+    assigned = [x for _, x in order]
+    site = "ethosu/vela/operation.py:Operation.clone"
+    n = 0
+    for sl in slots:
+        if sl in _CLONE_EXEMPT:
+            continue
+        n += 1
+        rep.check(sl in assigned or sl.lstrip("_") in assigned, rule, site, f"`{sl}` is copied to the clone", f"`{sl}` stays at the default of a fresh Operation: the clone no longer encodes what the original does "
+                  "(rounding mode: three of the four half-pixel RESIZE_BILINEAR convolutions lose the AwayZero +1 of their scale records)")
+    # setters that read other members
+    for f in cls.body:
+        if isinstance(f, ast.FunctionDef) and any(isinstance(d, ast.Attribute) and d.attr == "setter" for d in f.decorator_list):
+            reads = {x.attr for x in ast.walk(f) if isinstance(x, ast.Attribute) and isinstance(x.value, ast.Name) and x.value.id == "self" and isinstance(x.ctx, ast.Load)}
+            deps = set()
+            for r_ in reads:
+                for cand in (r_, "_" + r_):
+                    if cand in slots and cand.lstrip("_") != f.name and cand not in ("type", "name"):
+                        deps.add(cand)
+            if f.name in assigned:
+                pos = assigned.index(f.name)
+                for d_ in sorted(deps):
+                    dn = d_ if d_ in assigned else d_.lstrip("_")
+                    if dn in assigned:
+                        n += 1
+                        rep.check(assigned.index(dn) < pos, rule, site, f"`{d_}` is copied before the `{f.name}` setter that validates against it runs",
+                                  f"`res.{f.name} = ..` runs while `{d_}` still has the default of a fresh Operation: the setter judges the clone by the wrong value "
+                                  "(AwayZero on a DepthwiseConv2DBias whose original type is not yet ResizeBilinear: AssertionError out of vela.main)")
+    return n
+
+
+
+_OWNED_EXEMPT = {
+    # (module, function, aliased member): reviewed reason
+    ("tflite_graph_optimiser", "fixup_strided_conv", "weight_tensor.shape"): "the rewrite replaces values, all shapes (set_all_shapes) and the value id of the NPU operator's own weight tensor together",
+    ("operation", "Operation.get_split_inputs_axis", "size_tens.values"): "called by rewrite_split_ops for NPU-placed operators only; the size constant is the operator's own clone and is absorbed",
+}
+_OWNED_MUTATORS = ("insert", "append", "extend", "pop", "remove", "reverse", "sort", "clear", "fill", "resize", "itemset", "put")
+
+
+def owned_member_mutation_lint(repo, rep, rule, modules, report=True):
+    """A tensor owns its `shape` list and its `values` array; both are shared (the shape list is the same object as
+    `_original_shape` and is carried over by the CPU-visible clone, the values array is the model's constant data). A rewrite or a
+    constraint check that wants to edit them works on a copy. Flagged: a local bound to a bare `<expr>.shape` / `<expr>.values`
+    (no copy(), list(), slicing, int()) that is afterwards mutated in place (list mutators, subscript store, `del x[..]`, augmented
+    assignment - in place for lists and arrays), and an augmented assignment / mutator applied to `<expr>.shape` itself."""
+    import ast
+
+    from ..astutil import walk_no_nested
+    from ..exprnorm import norm
+
+    n = 0
+    hits = []
+    for mname in modules:
+        m = repo.mod(mname)
+        for q, fn in m.functions.items():
+            alias = {}
+            for st in sorted((x for x in walk_no_nested(fn) if isinstance(x, (ast.Assign, ast.AugAssign, ast.Delete, ast.Expr))), key=lambda x: x.lineno):
+                if isinstance(st, ast.Assign) and len(st.targets) == 1 and isinstance(st.targets[0], ast.Name):
+                    v = st.value
+                    if isinstance(v, ast.Attribute) and v.attr in ("shape", "values") and not (isinstance(v.value, ast.Name) and v.value.id in ("np", "numpy")):
+                        alias[st.targets[0].id] = (v.attr, str(norm(v)), st.lineno, st)
+                        n += 1
+                    elif st.targets[0].id in alias:
+                        # a later binding ends the alias only if it is in the same block as the aliasing one or in an enclosing block
+                        # (a binding in a sibling branch - the else of the aliasing if - leaves the alias alive on the other path)
+                        anc = set()
+                        cur = m.parents.get(alias[st.targets[0].id][3])
+                        while cur is not None:
+                            anc.add(id(cur))
+                            cur = m.parents.get(cur)
+                        par = m.parents.get(st)
+                        in_else_of = isinstance(par, ast.If) and id(par) in anc and st in par.orelse and alias[st.targets[0].id][3] in par.body
+                        if id(par) in anc and not in_else_of:
+                            alias.pop(st.targets[0].id, None)
+                    continue
+                tgt = None
+                how = None
+                if isinstance(st, ast.AugAssign):
+                    t = st.target
+                    if isinstance(t, ast.Name):
+                        tgt, how = t.id, f"`{str(norm(st))[:50]}`"
+                    elif isinstance(t, ast.Subscript) and isinstance(t.value, ast.Name):
+                        tgt, how = t.value.id, f"`{str(norm(st))[:50]}`"
+                    elif isinstance(t, ast.Attribute) and t.attr == "shape":
+                        n += 1
+                        hits.append((mname, q, f"`{str(norm(st))[:60]}` extends the tensor's own shape list in place", str(norm(t))))
+                elif isinstance(st, ast.Assign):
+                    for t in st.targets:
+                        if isinstance(t, ast.Subscript) and isinstance(t.value, ast.Name):
+                            tgt, how = t.value.id, f"`{str(norm(st))[:50]}`"
+                elif isinstance(st, ast.Delete):
+                    for t in st.targets:
+                        if isinstance(t, ast.Subscript) and isinstance(t.value, ast.Name):
+                            tgt, how = t.value.id, f"`{str(norm(st))[:50]}`"
+                elif isinstance(st, ast.Expr) and isinstance(st.value, ast.Call) and isinstance(st.value.func, ast.Attribute) and st.value.func.attr in _OWNED_MUTATORS:
+                    b = st.value.func.value
+                    if isinstance(b, ast.Name):
+                        tgt, how = b.id, f"`{str(norm(st))[:50]}`"
+                    elif isinstance(b, ast.Attribute) and b.attr == "shape":
+                        n += 1
+                        hits.append((mname, q, f"{str(norm(st))[:60]} edits the tensor's own shape list in place", str(norm(b))))
+                if tgt in alias:
+                    kind, src, ln, _ast = alias[tgt]
+                    hits.append((mname, q, f"`{tgt}` is `{src}` itself (line {ln}, no copy) and {how} edits it in place", src))
+    if report:
+        seen = set()
+        for mname, q, txt, src in hits:
+            if (mname, q, txt) in seen:
+                continue
+            if (mname, q, src) in _OWNED_EXEMPT:
+                seen.add((mname, q, txt))
+                rep.ok(rule, f"ethosu/vela/{mname}.py:{q}", txt[:80], "reviewed: " + _OWNED_EXEMPT[(mname, q, src)])
+                continue
+            seen.add((mname, q, txt))
+            rep.bad(rule, f"ethosu/vela/{mname}.py:{q}", "a tensor's shape list / constant values are edited only through a copy",
+                    txt + ": the list is shared with `_original_shape` and the CPU-visible clone (a [1,4] interface tensor is written as [1,1,1,4]); a values array is the model's constant data "
+                    "(an axis constant -1 becomes 3 in the output file)")
+        if not hits:
+            rep.ok(rule, "ethosu/vela", f"{n} bare aliases of tensor shape / values in {len(modules)} modules", "none is mutated in place")
+    return n, hits
+
+
+
+def address_truth_lint(repo, rep, rule, modules, report=True):
+    """An address (or offset) is a number for which 0 is a legal value - the first tensor of a region lives at 0. A truth test on it
+    (`if t.address:`, `t and t.address`) treats the tensor at offset 0 as absent. Flagged: `.address` / `.offset` attributes used
+    directly as a condition or as an operand of and / or / not; comparisons and `is None` tests are what the code means."""
+    import ast
+
+    from ..exprnorm import norm
+
+    n = 0
+    bad = []
+    for mname in modules:
+        m = repo.mod(mname)
+        for q, fn in m.functions.items():
+            for x in ast.walk(fn):
+                conds = []
+                if isinstance(x, (ast.If, ast.While, ast.IfExp)):
+                    conds.append(x.test)
+                elif isinstance(x, ast.BoolOp):
+                    conds.extend(x.values)
+                elif isinstance(x, ast.UnaryOp) and isinstance(x.op, ast.Not):
+                    conds.append(x.operand)
+                elif isinstance(x, ast.Assert):
+                    conds.append(x.test)
+                for c in conds:
+                    if isinstance(c, ast.Attribute) and c.attr in ("address", "offset", "address_offset"):
+                        bad.append((mname, q, str(norm(x))[:80] if not isinstance(x, (ast.If, ast.While)) else str(norm(x.test))[:80], str(norm(c))))
+            n += sum(1 for x in ast.walk(fn) if isinstance(x, ast.Attribute) and x.attr == "address" and isinstance(x.ctx, ast.Load))
+    if report:
+        for mname, q, txt, c in bad:
+            rep.bad(rule, f"ethosu/vela/{mname}.py:{q}", "addresses are compared, never truth-tested (0 is a legal address)",
+                    f"`{txt}` truth-tests `{c}`: a tensor at offset 0 of its region is treated as absent (a lookup table that is the first constant of the NPU subgraph is never copied into the flash image: "
+                    "the command stream DMAs 256 zero bytes)")
+        if not bad:
+            rep.ok(rule, "ethosu/vela", f"{n} reads of `.address` in {len(modules)} modules", "none is used as a truth value")
+    return n, bad
+
+
+
+def stale_loop_variable_lint(repo, rep, rule, modules, report=True):
+    """A `for` target that is read after its loop has ended (and has not been bound again) still holds the last element of the finished
+    loop. Where a later loop has a variable of its own for the same role, the leftover is almost always a slip: `start_op.run_on_npu` for
+    `curr_op.run_on_npu` judges every operator of a pass by the first one. Names re-bound as lambda / nested-function parameters or
+    comprehension targets are different variables and are skipped."""
+    import ast
+
+    from ..exprnorm import norm
+
+    hits = []
+    n = 0
+    for mname in modules:
+        m = repo.mod(mname)
+        for q, fn in m.functions.items():
+            for lp in ast.walk(fn):
+                if not isinstance(lp, ast.For):
+                    continue
+                n += 1
+                end = lp.end_lineno
+                for t in [x.id for x in ast.walk(lp.target) if isinstance(x, ast.Name)]:
+                    binds = [x for x in ast.walk(fn) if isinstance(x, ast.Name) and x.id == t and isinstance(x.ctx, ast.Store) and not (lp.lineno <= x.lineno <= end)]
+                    for x in ast.walk(fn):
+                        if not (isinstance(x, ast.Name) and x.id == t and isinstance(x.ctx, ast.Load) and x.lineno > end):
+                            continue
+                        if any(end < b.lineno <= x.lineno for b in binds):
+                            continue
+                        shadow = False
+                        cur = m.parents.get(x)
+                        while cur is not None and cur is not fn:
+                            if isinstance(cur, (ast.Lambda, ast.FunctionDef)) and any(a.arg == t for a in cur.args.args + cur.args.kwonlyargs):
+                                shadow = True
+                            if isinstance(cur, (ast.ListComp, ast.SetComp, ast.DictComp, ast.GeneratorExp)) and any(isinstance(y, ast.Name) and y.id == t for g in cur.generators for y in ast.walk(g.target)):
+                                shadow = True
+                            if cur is lp:
+                                shadow = True
+                            cur = m.parents.get(cur)
+                        if not shadow:
+                            hits.append((mname, q, t, x.lineno, lp.lineno))
+    if report:
+        seen = set()
+        for mname, q, t, ln, l0 in hits:
+            if (mname, q, t) in seen:
+                continue
+            seen.add((mname, q, t))
+            rep.bad(rule, f"ethosu/vela/{mname}.py:{q}", "no loop variable is read after its loop",
+                    f"`{t}` (target of the loop at line {l0}) is read at line {ln} after that loop has ended: it still holds the loop's last element "
+                    "(every operator packed into a pass is judged by `start_op.run_on_npu`: a CPU-placed producer is packed into an NPU pass)")
+        if not hits:
+            rep.ok(rule, "ethosu/vela", f"{n} loops in {len(modules)} modules", "no target is read after its loop")
+    return n, hits
+
+
 def round_half_away(repo, rep, rule):
     """numeric_util.round_away_zero is the single rounding primitive behind quantise_scale, the LUT generators and
     quantise_float32. Its rounding mode is a property of the function's shape: it touches its argument only through
